@@ -39,6 +39,8 @@ def all_paths_pass(cfg, start, through, also_ok=()):
 
 
 def run(ck, facts, tier):
+    from shared import fixedpoint
+    fixedpoint.table(ck, facts, "C01.FIXED-POINT-TABLE", which=("stale",))
     from shared import zippers
     zippers.answer_subst(ck, facts, "C01.ANSWER-SUBST")
     # ------------------------------------------------------------------ UNIQUE-GUARD
